@@ -12,6 +12,10 @@ PROP = dict(
                "min(#jobs, processes-per-node or CPU count). Tied by history replay of real executions (the squeue listing is "
                "part of the replayed event), the queue and batch suites, generated is_full/min predicates.",
     level_note="Assumption about SLURM (truthful squeue): a batch the scheduler still has is always listed (any state word). "
+               "System cases: fault-free modes plus half shares of submitter faults, batch faults, a flaky scheduler (squeue "
+               "failing for all 7 attempts of a round, failing sbatch, hanging commands) and resubmission epochs in which "
+               "resubmit-jobs may be issued right after the completion flag appeared, while batches of the finished epoch are "
+               "still listed; the cap oracle counts every batch of the submission that the scheduler still has, of any epoch. "
                "Trusted: Lean kernel (+3 axioms), vcluster harness and translation.",
     assumptions=["squeue lists every pending/running batch of the user", "no requeue of a finished batch"],
     explanation="Proofs/SystemCap.lean (CapInv), Props/Queue.lean, Proofs/Batch.lean (submitLoop_outstanding).",
